@@ -6,9 +6,18 @@ cd $WT || exit 2
 git checkout -q -- . ; rm -f tests/seed_demo.rs
 cp $D/seed_demo.rs tests/seed_demo.rs
 export CARGO_NET_OFFLINE=true
-P=$(cargo test --offline --test seed_demo 2>&1 | grep -E "^test result|^error(\[|:)" | head -5)
+P=$(cargo test --offline ${DEMOFLAGS:-} --test seed_demo 2>&1 | grep -E "^test result|^error(\[|:)" | head -5)
 git apply $D/patch.diff || { echo "APPLY FAILED" > $D/confirm.txt; exit 1; }
-ALL=$(cargo test --offline --no-fail-fast 2>&1 | grep -E "^test result|Running|^error(\[|:)|^test .* FAILED" | head -60)
+if [ -n "${DEMOFLAGS:-}" ]; then
+  # build-dependent seed: the 78 existing tests run in the default configuration (demo excluded), the demo under DEMOFLAGS
+  mv tests/seed_demo.rs /tmp/seed_demo_$ID.rs
+  ALL=$(cargo test --offline --no-fail-fast 2>&1 | grep -E "^test result|Running|^error(\[|:)|^test .* FAILED" | head -60)
+  mv /tmp/seed_demo_$ID.rs tests/seed_demo.rs
+  ALL="$ALL
+$(cargo test --offline ${DEMOFLAGS} --test seed_demo 2>&1 | grep -E "^test result|Running|^error(\[|:)" | head -6)"
+else
+  ALL=$(cargo test --offline --no-fail-fast 2>&1 | grep -E "^test result|Running|^error(\[|:)|^test .* FAILED" | head -60)
+fi
 git checkout -q -- . ; rm -f tests/seed_demo.rs
 { echo "== pristine: demo"; echo "$P"; echo "== patched: full suite + demo"; echo "$ALL"; } > $D/confirm.txt
 python3 - "$D" <<'PY'
